@@ -15,7 +15,7 @@ Next ==
        [] ev.k = "end" /\ ~skip -> (IF ev.live = 0 /\ ev.files = 0 /\ Owned(st) = {} /\ st.pending = 0 THEN TRUE ELSE Report(ev, "memory or files still held after everything was released", 0)) /\ UNCHANGED <<st, skip>>
        [] ev.k = "hop" /\ ~skip ->
             IF ~ProtocolOK(ev) THEN Report(ev, "failure not reported through the slot / error on success", 0) /\ st' = st /\ skip' = TRUE
-            ELSE IF ev.d # Delta(st, ev) THEN Report(ev, "live heap blocks changed by " \o ToString(ev.d) \o " instead of the footprint", Delta(st, ev)) /\ st' = st /\ skip' = TRUE
+            ELSE IF DeltaWhy(st, ev) # "" THEN Report(ev, DeltaWhy(st, ev), 0) /\ st' = st /\ skip' = TRUE
             ELSE IF ev.files # 0 THEN Report(ev, "a FILE is left open", 0) /\ st' = st /\ skip' = TRUE
             ELSE LET s2 == HeapStep(st, ev) IN
                  IF ev.live # Ledger(s2) THEN Report(ev, "running total of live blocks differs from the ledger", Ledger(s2)) /\ st' = st /\ skip' = TRUE
